@@ -95,6 +95,40 @@ fn index_ok(xs: &[usize], q: usize, got: Option<usize>) -> bool {
 // ---------------------------------------------------------------------------
 // queries
 
+/// Every query scans the bucket of its upper bits linearly, so a sequence that
+/// crowds many elements into one bucket (u a loose bound) makes each query
+/// cost O(bucket). Keeps `must` and a random sample of `q` such that
+/// (bucket population) x (queries) stays bounded.
+fn cap_work(c: &mut Case, xs: &[usize], u: usize, mut q: Vec<usize>, must: &[usize], small: bool) -> Vec<usize> {
+    let n = xs.len();
+    if n == 0 {
+        return q;
+    }
+    let l = l_est(n, u).saturating_sub(1);
+    let (mut maxb, mut run, mut prev) = (1usize, 0usize, usize::MAX);
+    for &x in xs {
+        if x >> l == prev {
+            run += 1;
+        } else {
+            run = 1;
+            prev = x >> l;
+        }
+        maxb = maxb.max(run);
+    }
+    let work: usize = if small { 20_000 } else { 12_000_000 };
+    let allowed = (work / maxb).max(48);
+    if q.len() > allowed {
+        // partial Fisher-Yates: a uniform sample of `allowed` queries
+        for i in 0..allowed {
+            let j = c.rng().random_range(i..q.len());
+            q.swap(i, j);
+        }
+        q.truncate(allowed);
+        q.extend_from_slice(must);
+    }
+    q
+}
+
 fn queries_le_u(c: &mut Case, xs: &[usize], u: usize, small: bool) -> Vec<usize> {
     let n = xs.len();
     let l0 = l_est(n, u);
@@ -147,6 +181,13 @@ fn queries_le_u(c: &mut Case, xs: &[usize], u: usize, small: bool) -> Vec<usize>
             q.push((1usize << k) - 1);
         }
     }
+    let mut must: Vec<usize> = vec![0, 1, u, u.saturating_sub(1)];
+    if n > 0 {
+        for x in [xs[0], xs[n - 1]] {
+            must.extend_from_slice(&[x, x.saturating_sub(1), x.saturating_add(1)]);
+        }
+    }
+    let mut q = cap_work(c, xs, u, q, &must, small);
     q.retain(|&x| x <= u);
     q.sort_unstable();
     q.dedup();
@@ -182,9 +223,16 @@ fn queries_gt_u(c: &mut Case, xs: &[usize], u: usize, small: bool) -> Vec<usize>
     q.retain(|&x| x > u);
     q.sort_unstable();
     q.dedup();
-    if small {
-        q.truncate(40);
+    if small && q.len() > 40 {
+        // keep both ends: the values right above u and the largest ones
+        let tail: Vec<usize> = q[q.len() - 12..].to_vec();
+        q.truncate(28);
+        q.extend(tail);
     }
+    let must = [u + 1, MAXU];
+    let mut q = cap_work(c, xs, u, q, &must, small);
+    q.sort_unstable();
+    q.dedup();
     q
 }
 
@@ -491,7 +539,7 @@ const ALL_PARTS: &[Part] = &[Part::Main, Part::GtUSucc, Part::GtUPred, Part::GtU
 
 fn main() {
     let mut ctx = Ctx::from_args("C04");
-    ctx.set_hang_limit(120);
+    ctx.set_hang_limit(300);
     let small = ctx.small;
     let mut k = 0usize;
     let n_list: &[usize] = if small {
